@@ -308,6 +308,31 @@ def runSeekCase (j : Json) : Json :=
     | k => Json.mkObj [("_bad", Json.str s!"unknown seek op {k}")]
   Json.mkObj [("outs", Json.arr outs)]
 
+def shiftSDef (a : Nat) (sd : SDef) : SDef :=
+  { sd with hint := sd.hint.map (fun h i => h (i + a)), pats := sd.pats.map (fun p i => p (i + a)) }
+
+/-- spec layer for C07, sequence searches: the complete sections of reading the lines from
+    the activation line on with the unconstrained state machine (C07_gate_exact_seq), as
+    [[role, ln, values]] per section; only for homogeneous constraint sets -/
+def specSeqGatedCase (j : Json) : Json :=
+  let t := toTaskIn j
+  Json.mkObj ((dedupDefs t.defs []).filterMap fun d =>
+    match d.kind with
+    | .seq s =>
+      if d.cons.isEmpty || !(Spec.homogeneous d.cons t.n) then none else
+      let a := (Spec.activation d.cons t.n).getD t.n
+      let s' : SeqDef := { start := shiftSDef a s.start, body := s.body.map (shiftSDef a),
+                           end_ := s.end_.map (shiftSDef a), tag := s.tag }
+      let n' := t.n - a
+      let sdOf (role : String) : SDef :=
+        if role == "-start" then s'.start
+        else if role == "-body" then s'.body.getD s'.start else s'.end_.getD s'.start
+      some (toString d.id, Json.arr ((Spec.sections s' n').map fun sec =>
+        Json.arr ((Spec.itemsOf s' n' sec).map fun it =>
+          Json.arr #[Json.str it.role, toJson (it.ln + a),
+            Json.arr ((Spec.values (sdOf it.role) it.m).map optVal).toArray]).toArray).toArray)
+    | .simple _ => none)
+
 /-- spec layer for C07: per constrained definition, activation line and homogeneity -/
 def specGateCase (j : Json) : Json :=
   let t := toTaskIn j
@@ -705,7 +730,8 @@ def runNameRxCase (j : Json) : Json :=
 def handle (j : Json) : Json :=
   match strF j "kind" with
   | "task" => Json.mkObj [("model", runTaskCase j), ("specSimple", specSimpleCase j),
-                          ("specSeq", specSeqCase j), ("specGate", specGateCase j)]
+                          ("specSeq", specSeqCase j), ("specGate", specGateCase j),
+                          ("specSeqGated", specSeqGatedCase j)]
   | "fault" => Json.mkObj [("model", runFaultCase j)]
   | "cache" => Json.mkObj [("model", runCacheCase j)]
   | "namerx" => Json.mkObj [("model", runNameRxCase j)]
